@@ -117,6 +117,14 @@ IAddConst(c) == Bound /\ Tame(x) /\ Step([n |-> "iadd_const", c |-> c], [i \in D
 IMul(c) == Bound /\ Tame(x) /\ Step([n |-> "imul", c |-> c], VScale(c, x))
 IMulVec == Bound /\ Tame(x) /\ Step([n |-> "imul_vec", src |-> "y"], VMul(x, y))
 AddScalVec(c, src) == Bound /\ Tame(x) /\ Step([n |-> "add_scal_vec", c |-> c, src |-> src], VAdd(x, VScale(c, Other(src))))
+\* iadd / isub / imul restricted to `idxs` (a flat NumPy index): only the addressed entries change
+OpIdx(op, ix, c) ==
+    /\ Bound /\ Tame(x) /\ Nd!Valid(ix, <<Len(x)>>, TRUE)
+    /\ LET pos == Nd!Positions(ix, <<Len(x)>>, TRUE)
+           new == [k \in 1..Len(pos) |-> CASE op = "iadd" -> Add(x[pos[k] + 1], c)
+                                            [] op = "isub" -> Sub(x[pos[k] + 1], c)
+                                            [] OTHER -> Mul(x[pos[k] + 1], c)]
+       IN Step([n |-> "op_idx", op |-> op, idx |-> ix, c |-> c], Assign(x, pos, new))
 
 NVars == 3          \* every layout has three variables
 FlatIdx == {Nd!IntT(0), Nd!IntT(-1), Nd!SliceT(1, 3, Nd!NoneV), Nd!SliceT(Nd!NoneV, Nd!NoneV, 2), Nd!ArrT(<<2, 0>>)}
@@ -163,6 +171,7 @@ Next == \/ \E c \in Scalars : SetValScalar(c)
         \/ \E src \in {"y", "self"} : IAdd(src) \/ ISub(src)
         \/ IAddConst(R(3))
         \/ \E c \in Scalars : IMul(c)
+        \/ \E op \in {"iadd", "isub", "imul"}, ix \in FlatIdx, c \in {R(-2), R(3)} : OpIdx(op, ix, c)
         \/ IMulVec
         \/ \E c \in Scalars, src \in {"y", "self"} : AddScalVec(c, src)
         \/ \E v \in 1..NVars, via \in {"setitem", "view"}, whole \in {"scalar", "array"} : SetName(v, via, whole)
